@@ -206,14 +206,15 @@ Fixpoint eff_chunks (eof : bool) (chunks : list bytes) : list bytes :=
   end.
 
 (* the requests whose ADU lies completely in the bytes the server has read *)
-Fixpoint complete_reqs (qs : list e2e_req) (sent : bytes) : list e2e_req :=
+Fixpoint complete_reqs_k (radu : e2e_req -> bytes) (qs : list e2e_req) (sent : bytes) : list e2e_req :=
   match qs with
   | [] => []
-  | q :: t => match strip_prefix (req_adu q) sent with
-              | Some rest => q :: complete_reqs t rest
+  | q :: t => match strip_prefix (radu q) sent with
+              | Some rest => q :: complete_reqs_k radu t rest
               | None => []
               end
   end.
+Definition complete_reqs := complete_reqs_k req_adu.
 
 Definition is_prefix (p l : bytes) : bool := match strip_prefix p l with Some _ => true | None => false end.
 
